@@ -316,7 +316,7 @@ func TestVerif_C09(t *testing.T) {
 		}
 		// long tokens (digit runs, strings, white space, fractions, exponents of 17-24 bytes): every
 		// byte value at every position of the token - scans that take 8 or 16 bytes at a time
-		long := []struct{ pre, tok, post string }{{"[", "12345678901234567", "]"}, {"{\"x\": ", "123456789012345678", "}"}, {"[\"", "abcdefghijklmnopqrstuvwx", "\"]"},
+		long := []struct{ pre, tok, post string }{{"[", "12345678901234567", "]"}, {"{\"x\": ", "123456789012345678", "}"}, {"[\"", "abcdefghijklmnopqrstuvwx", "\"]"}, {"{\"name\":\"", "C:/programs and files/of some length/and more.txt", "\"}"},
 			{"[1,", "                 ", "2]"}, {"[0.", "12345678901234567", "]"}, {"[1e", "12345678901234567", "]"}, {"[-", "12345678901234567", ",1]"}, {"{\"", "kkkkkkkkkkkkkkkkkkkk", "\":1}"}}
 		for li, lt := range long {
 			if li%nsh != sh {
@@ -326,7 +326,7 @@ func TestVerif_C09(t *testing.T) {
 				for v := 0; v < 256; v++ {
 					doc := []byte(lt.pre + lt.tok + lt.post)
 					doc[len(lt.pre)+p] = byte(v)
-					for _, L := range []uint32{0, uint32(len(doc))} {
+					for _, L := range []uint32{0, uint32(len(doc)), uint32(len(lt.pre) + len(lt.tok)), uint32(len(lt.pre) + len(lt.tok) - 2)} {
 						c := c09Case{H: doc, Limit: L}
 						r := c09Check(c)
 						n++
